@@ -357,12 +357,15 @@ def is_scatter_join_mispaired(prog, res: R.RunResult) -> bool:
             continue
         ok = {j: sum(1 for e in res.execs.get(j, ()) if e["outcome"] == "ok") for j in js}
         failed = {j: sum(1 for e in res.execs.get(j, ()) if e["outcome"] != "ok") for j in js}
-        never = [j for j in js if ok[j] == 0 and failed[j] == 0 and j not in res.recover_calls]
+        never_any = [j for j in js if ok[j] == 0 and failed[j] == 0]
+        never = [j for j in never_any if j not in res.recover_calls]
         twice = [j for j in js if ok[j] >= 2 and failed[j] == 0]
         mismatch = [j for j in js for e in res.execs.get(j, ()) if e.get("in_tag") not in (None, j.rsplit("/", 1)[1])]
         # a job token consumed without ever being run (and never reported as failed) is the signature;
         # a job run twice / run on another element's inputs is additional evidence when present
-        if never and (twice or mismatch or res.status == "ok"):
+        if never_any and (twice or mismatch):
+            return True
+        if never and res.status == "ok":
             return True
     return False
 
